@@ -11,6 +11,7 @@ import (
 	"path/filepath"
 	"sort"
 	"strings"
+	"unicode/utf8"
 
 	"golang.org/x/tools/go/packages"
 	"golang.org/x/tools/go/ssa"
@@ -41,16 +42,17 @@ type Engine struct {
 	gaddr        map[*types.Var]string
 	gaddrN       int
 	loopEnumSort map[string]string
+	classConst   map[string]string // value of a class string constant in the source -> prelude constant
 
 	touchCache map[*ssa.Function]map[string]bool
 	touchBusy  map[*ssa.Function]bool
 	dirtyCache map[*ssa.Function]map[string]bool
 	dirtyBusy  map[*ssa.Function]bool
 
-	obligs     []*Obligation
+	obligs      []*Obligation
 	assumptions map[string]bool
-	tier       string
-	funcsDone  []string
+	tier        string
+	funcsDone   []string
 }
 
 func newEngine(repo, specDir string) (*Engine, error) {
@@ -101,6 +103,15 @@ func newEngine(repo, specDir string) (*Engine, error) {
 				if _, isS := tn.Type().Underlying().(*types.Struct); isS {
 					eng.sorts.structOf(tn.Type())
 				}
+			}
+		}
+	}
+	// the package's character-class constants, by their current value
+	eng.classConst = map[string]string{}
+	if sp := eng.spkg["spg"]; sp != nil {
+		for cn, pn := range map[string]string{"ctUpper": "cls_upper", "ctLower": "cls_lower", "ctDigits": "cls_digits", "ctSymbols": "cls_symbols", "ctAmbiguous": "cls_ambiguous"} {
+			if c, ok := sp.Pkg.Scope().Lookup(cn).(*types.Const); ok && c.Val().Kind() == constant.String {
+				eng.classConst[constant.StringVal(c.Val())] = pn
 			}
 		}
 	}
@@ -194,6 +205,19 @@ func (eng *Engine) regComp(comp, srt string) {
 		eng.globalsDecl[name] = "(declare-const " + name + " " + srt + ")"
 		eng.globalsOrder = append(eng.globalsOrder, name)
 	}
+}
+
+// regSet registers the ghost heap of golang-set sets. Model invariant: every set holds only
+// one-character valid UTF-8 strings (re-established by an obligation at every Add).
+func (eng *Engine) regSet() {
+	if _, ok := eng.compSort[setHeap]; ok {
+		return
+	}
+	eng.regComp(setHeap, "(Array Int (Array Str Bool))")
+	eng.compElemInv[setHeap] = func(h string) string {
+		return "(forall ((p! Int) (c! Str)) (! (=> (select (select " + h + " p!) c!) (and (= (clen c!) 1) (utf8ok c!))) :pattern ((select (select " + h + " p!) c!))))"
+	}
+	eng.globalAx[setHeap+"_0"] = append(eng.globalAx[setHeap+"_0"], eng.compElemInv[setHeap](setHeap+"_0"))
 }
 
 func (eng *Engine) regMap(m *types.Map) {
@@ -322,6 +346,12 @@ func (eng *Engine) litDecls(syms map[string]bool) string {
 		nr := len([]rune(s))
 		// strings.Split(s, "") semantic: invalid bytes count one each, same as []rune conversion count
 		fmt.Fprintf(&b, "(declare-const %s Str)\n(assert (= (blen %s) %d))\n(assert (= (clen %s) %d))\n(assert (not (= %s eps)))\n", n, n, len(s), n, nr, n)
+		if utf8.ValidString(s) && syms["utf8ok"] {
+			fmt.Fprintf(&b, "(assert (utf8ok %s))\n", n)
+		}
+		if cn, ok := eng.classConst[s]; ok && syms[cn] {
+			fmt.Fprintf(&b, "(assert (= %s %s))\n", n, cn)
+		}
 	}
 	if len(used) > 1 {
 		b.WriteString("(assert (distinct")
